@@ -175,3 +175,45 @@ def gen_eigs():
         "",
     ])
     return write_if_changed(os.path.join(GEN_DIR, "Eigs.lean"), text), fr
+
+
+# ------------------------------------------------------------------ fingerprints of the source the hand-written model was validated against
+def fingerprints(files=None):
+    """{"lapy/x.py::Class.func": sha1 of the docstring-free AST dump} for every function of the given files (default: all of lapy/)"""
+    import hashlib
+    import glob
+    out = {}
+    rels = files or sorted(os.path.relpath(p, repo.REPO) for p in glob.glob(os.path.join(repo.REPO, "lapy", "*.py")))
+    for rel in rels:
+        try:
+            tree = _parse(rel)
+        except Exception:  # noqa: BLE001
+            out[rel] = "unparsable"
+            continue
+
+        def strip(fn):
+            body = fn.body
+            if body and isinstance(body[0], ast.Expr) and isinstance(getattr(body[0], "value", None), ast.Constant) and isinstance(body[0].value.value, str):
+                fn = ast.FunctionDef(name=fn.name, args=fn.args, body=body[1:] or [ast.Pass()], decorator_list=fn.decorator_list, returns=None, type_comment=None)
+            return hashlib.sha1(ast.dump(fn, annotate_fields=False, include_attributes=False).encode()).hexdigest()[:16]
+        for node in tree.body:
+            if isinstance(node, ast.FunctionDef):
+                out["%s::%s" % (rel, node.name)] = strip(node)
+            elif isinstance(node, ast.ClassDef):
+                for fn in node.body:
+                    if isinstance(fn, ast.FunctionDef):
+                        out["%s::%s.%s" % (rel, node.name, fn.name)] = strip(fn)
+    return out
+
+
+def drift(files):
+    """functions of `files` whose fingerprint differs from the recorded one (or that are new / gone)"""
+    import json
+    try:
+        with open(os.path.join(repo.VERIF, "model_fingerprints.json")) as f:
+            ref = json.load(f)["functions"]
+    except Exception:  # noqa: BLE001
+        return []
+    cur = fingerprints(files)
+    keys = {k for k in set(ref) | set(cur) if k.split("::")[0] in files}
+    return sorted(k for k in keys if ref.get(k) != cur.get(k))
